@@ -691,6 +691,21 @@ class _RotStub(object):
         return one(longitude, latitude)
 
 
+def _watch_image2sph(W, seen):
+    """record what image2sph is handed (it still runs): its radicand u^2 + v^2 is certified non-negative as a sum of squares"""
+    orig = W.image2sph
+
+    def i2s(u, v):
+        seen.append((u, v))
+        return orig(u, v)
+    W.image2sph = i2s
+
+
+def _certify_radicands(cx, seen):
+    for u, v in seen:
+        cx.certify_obligations([("u^2 + v^2", [_first(u), _first(v)])])
+
+
 def _key(c):
     return c.t.sexpr() if is_sym(c) else repr(c)
 
@@ -734,12 +749,7 @@ def _h_state(cx, cfg):
         _stub_fit(cx, W, H)
         W._rotate = _RotStub(cx)
         seen_uv = []
-        orig_i2s = W.image2sph
-
-        def i2s(u, v):
-            seen_uv.append((u, v))
-            return orig_i2s(u, v)
-        W.image2sph = i2s
+        _watch_image2sph(W, seen_uv)
         s0 = _snap(W)
         op = cx.choice("op", 4)
         if op in (0, 1):
@@ -761,8 +771,7 @@ def _h_state(cx, cfg):
             nm = "sky2image(find=False, distort=False)"
         d = _diff_snap(s0, _snap(W))
         cx.check("%s leaves the object's state unchanged" % nm, not d, detail=str(d))
-        for u, v in seen_uv:
-            cx.certify_obligations([("u^2 + v^2", [_first(u), _first(v)])])
+        _certify_radicands(cx, seen_uv)
         cx.assume_obligations(only=("arctan2", "division"))
         return
     if what == "lazy":
@@ -790,6 +799,8 @@ def _h_state(cx, cfg):
         _stub_fit(cx, W2, H, log2, mats=(Fa, Fb))
         W2.sph2image = sph
         W2._rotate = rot
+        seen_uv = []
+        _watch_image2sph(W2, seen_uv)
         hist = cx.choice("history", 4)
         x, y = cx.real("x"), cx.real("y")
         if hist == 0:
@@ -806,6 +817,7 @@ def _h_state(cx, cfg):
         r3 = W2.sky2image(lon, lat, find=False)
         cx.check_eq("sky2image(find=False): same result whatever the object did before (x)", r1[0], r3[0])
         cx.check_eq("sky2image(find=False): same result whatever the object did before (y)", r1[1], r3[1])
+        _certify_radicands(cx, seen_uv)
         cx.assume_obligations()
         return
     if what == "find":
@@ -816,6 +828,8 @@ def _h_state(cx, cfg):
         _stub_fit(cx, W, H)
         rot = _RotStub(cx)
         W._rotate = rot
+        seen_uv = []
+        _watch_image2sph(W, seen_uv)
         # arbitrary left-overs of earlier calls in the scratch buffers
         W.lonlat_answer = symnp.array([cx.real("left_lon"), cx.real("left_lat")])
         W.xyguess = symnp.array([cx.real("left_x"), cx.real("left_y")])
@@ -832,6 +846,7 @@ def _h_state(cx, cfg):
         W2 = w.WCS(H.h)
         _stub_fit(cx, W2, H)
         W2._rotate = rot
+        _watch_image2sph(W2, seen_uv)
         gx, gy = W2.sky2image(lon, lat, find=False, distort=False)
         cx.check_eq("sky2image(find=True): the search starts from the undistorted inverse, whatever the buffers held (x)", c["guess"][0], _first(gx))
         cx.check_eq("sky2image(find=True): the search starts from the undistorted inverse, whatever the buffers held (y)", c["guess"][1], _first(gy))
@@ -843,6 +858,7 @@ def _h_state(cx, cfg):
         cx.check("sky2image(find=True): returns the root that was found",
                  is_sym(_first(X)) and is_sym(_first(Y)) and str(_first(X).t) == "root0_x" and str(_first(Y).t) == "root0_y")
         cx.check("sky2image(find=True): result has the shape of the input", (form == "scalar") == (not isinstance(X, symnp.SArr) or X.ndim == 0))
+        _certify_radicands(cx, seen_uv)
         cx.assume_obligations(only=("arctan2", "division"))
         return
     if what == "jacobian":
